@@ -25,7 +25,9 @@ ASBUILT = {
   controllers, local and remote pressure controllers, 1-3 ext grids (several per junction, out-of-service extras), warm fluid
   (320-353 K in half of the cases) + small loops with mass / pressure circulation pumps. Contradictory prescriptions (an ext
   grid on a controlled junction) are removed by the generator - they are not a valid network (first run: false alarm, generator
-  corrected). **Found and fixed:** pump curve evaluated at `mdot / rho(273.15 K)`.""",
+  corrected). Every 40th case is a transient heat time series (start pressures redrawn away from every prescribed pressure, all
+  steps monitored through H1; added after seeded change R2_C03: a stale feeder count of the re-used node table let the start
+  pressure leak into the fixed pressure from step 1 on). **Found and fixed:** pump curve evaluated at `mdot / rho(273.15 K)`.""",
 "C04": """* **As built (`props/c04.py`, `reach.py`):** five hand-built topologies (path, tee with flow control / pressure control /
   pump, two-feeder gas mesh with pi valve and compressor, heating loop with two circulation pumps, two grids + island with a
   junction flag) with 9-11 flags each: quick samples 140 patterns per topology, **thorough enumerates all 2^k** (6656 patterns);
@@ -41,7 +43,9 @@ ASBUILT = {
   circulation pump next to an in-service one (reported by the S04 seeding agent, reproduced after adding a second pump).""",
 "C05": """* **As built (`props/c05.py`):** (A) 420 / 9000 call histories (1-5 calls on one object; feasible, overloaded, NaN-parameter,
   zero-diameter, tiny-pipe variants; four modes; automatic / constant damping; starved budgets; unreachable tolerances) checked
-  online through H2: every converged stage ends on an in-tolerance, finite, undamped step; every exhausted stage used exactly
+  online through H2: every converged stage ends on an in-tolerance (judged against the tolerances of the option layer per
+  variable, not against what the loop reports it used - seeded change R2_C05 swapped them; a quarter of the calls draws unequal
+  `tol_p / tol_m / tol_T` with `tol_res` up to 1), finite, undamped step; every exhausted stage used exactly
   its budget; returns are marked converged with finite results at fed junctions; `PipeflowNotConverged` leaves
   `net.converged` false and **no number in any result table**, also after earlier successes (225 such checks per quick run).
   NaN / zero parameters are invalid input: their exception class is only counted (numba raises ZeroDivisionError where numpy
